@@ -45,10 +45,13 @@ static std::string mlist(const std::vector<Mask>& v) {
   for (Mask m : v) s += mstr(m);
   return s.empty() ? "-" : s;
 }
-static Sx to_sx(Mask m) {
-  Sx s;
-  for (int i = 0; i < 8; ++i) if (m >> i & 1) s.add_vertex(VH(i));
-  return s;
+static const Sx& to_sx(Mask m) {  // table of the simplex objects (built once)
+  static std::vector<Sx> table;
+  if (table.empty()) {
+    table.resize(256);
+    for (Mask t = 0; t < 256; ++t) for (int i = 0; i < 8; ++i) if (t >> i & 1) table[t].add_vertex(VH(i));
+  }
+  return table[m];
 }
 static Mask to_mask(const Sx& s) {
   Mask m = 0;
@@ -186,10 +189,18 @@ struct Op {
 
 static bool g_report = true;      // false: silent re-execution (used to decide whether a history has diverged)
 static bool g_inconsistent = false;
-static void mm(const std::string& cls, const std::string& detail) {
-  g_inconsistent = true;
-  if (g_report) vf::mismatch(cls, detail);
-}
+// Every observer is compared at every state.  Per executed history the FIRST disagreeing observer (fixed order:
+// return values, contains, blocker_range, num_blockers, contains_blocker, complex_simplex_range, num_simplices,
+// num_connected_components, num_vertices, num_edges, link_condition, Betti/Euler) names the mismatch class; further
+// disagreements at the same state are consequences of the same divergence and are only counted.
+#define mm(cls, detail)                                                              \
+  do {                                                                               \
+    if (g_report) {                                                                  \
+      if (!g_inconsistent) vf::mismatch((cls), (detail));                            \
+      else vf::stats().add("secondary_disagreements_at_an_already_reported_state");  \
+    }                                                                                \
+    g_inconsistent = true;                                                           \
+  } while (0)
 
 struct Driver {
   int nmax = 4, nctor = 4, variants = 0;
@@ -383,7 +394,8 @@ struct Driver {
   void observe(const SB& c, const Model& m, const std::string& tag, const std::string& fp) const {
     int nb = (int)boost::num_vertices(c.skeleton);
     int nn = std::min(6, std::max(m.N, nb));
-    std::string ctx = " | model " + m.text() + " blockers=" + mlist(m.blockers());
+    auto ctx_f = [&]() { return " | model " + m.text() + " blockers=" + mlist(m.blockers()); };
+#define ctx ctx_f()
     // contains(s) for every vertex set
     std::vector<Mask> got = impl_simplices_by_contains(c, nn), want = m.simplices(), lost, gained;
     std::set_difference(want.begin(), want.end(), got.begin(), got.end(), std::back_inserter(lost), by_dim);
@@ -441,19 +453,22 @@ struct Driver {
     if (c.num_vertices() != pc(m.active)) mm("C17:num_vertices:" + tag + fp, "got " + std::to_string(c.num_vertices()) + " want " + std::to_string(pc(m.active)) + ctx);
     if (c.num_edges() != m.num_edges()) mm("C17:num_edges:" + tag + fp, "got " + std::to_string(c.num_edges()) + " want " + std::to_string(m.num_edges()) + ctx);
     // link condition of every edge of the abstract complex
+    long long lc_true = 0, lc_false = 0;
     for (int a = 0; a < m.N; ++a) for (int b = 0; b < m.N; ++b) {
       if (a == b || !m.has((1u << a) | (1u << b))) continue;
       bool w = m.link_condition(1u << a, 1u << b);
       bool g = c.link_condition(VH(a), VH(b));
-      if (g_report) vf::stats().add(w ? "nv.link_condition.true" : "nv.link_condition.false");
+      (w ? lc_true : lc_false)++;
       if (g != w) mm("C17:link_condition:" + tag + fp, "edge " + std::to_string(a) + "," + std::to_string(b) + " got " + std::to_string(g) + " want " + std::to_string(w) + ctx);
       if (variants && a < b) {
         auto e = c[std::make_pair(VH(a), VH(b))];
         if (e && c.link_condition(*e) != w) mm("C17:link_condition_edge_handle:" + tag + fp, "edge " + std::to_string(a) + "," + std::to_string(b) + ctx);
       }
     }
+    if (g_report) { vf::stats().add("nv.link_condition.true", lc_true); vf::stats().add("nv.link_condition.false", lc_false); }
   }
 
+#undef ctx
   struct Exec { std::string key; bool consistent; };
 
   Exec exec(const std::vector<int>& hist, bool report) const {
